@@ -326,17 +326,46 @@ impl Deserializable for ProofOptions {
     /// # Errors
     /// Returns an error of a valid proof options could not be read from the specified `source`.
     fn read_from<R: ByteReader>(source: &mut R) -> Result<Self, DeserializationError> {
+        let num_queries = source.read_u8()? as usize;
+        let blowup_factor = source.read_u8()? as usize;
+        let grinding_factor = source.read_u8()? as u32;
+        let field_extension = FieldExtension::read_from(source)?;
+        let fri_folding_factor = source.read_u8()? as usize;
+        let fri_remainder_max_degree = source.read_u8()? as usize;
+        let batching_constraints = BatchingMethod::read_from(source)?;
+        let batching_deep = BatchingMethod::read_from(source)?;
+        let num_partitions = source.read_u8()? as usize;
+        let hash_rate = source.read_u8()? as usize;
+
+        // the constructors below panic on invalid parameters; since the bytes may come from an
+        // untrusted source, we need to validate the parameters here and return an error instead
+        let is_valid = num_queries > 0
+            && blowup_factor.is_power_of_two()
+            && (MIN_BLOWUP_FACTOR..=MAX_BLOWUP_FACTOR).contains(&blowup_factor)
+            && grinding_factor <= MAX_GRINDING_FACTOR
+            && fri_folding_factor.is_power_of_two()
+            && (FRI_MIN_FOLDING_FACTOR..=FRI_MAX_FOLDING_FACTOR).contains(&fri_folding_factor)
+            && (fri_remainder_max_degree + 1).is_power_of_two()
+            && fri_remainder_max_degree <= FRI_MAX_REMAINDER_DEGREE
+            && (1..=16).contains(&num_partitions)
+            && hash_rate >= 1;
+        if !is_valid {
+            return Err(DeserializationError::InvalidValue(format!(
+                "proof options contain an invalid parameter: num_queries = {num_queries}, blowup_factor = {blowup_factor}, grinding_factor = {grinding_factor}, fri_folding_factor = {fri_folding_factor}, fri_remainder_max_degree = {fri_remainder_max_degree}, num_partitions = {num_partitions}, hash_rate = {hash_rate}"
+            )));
+        }
+
         let result = ProofOptions::new(
-            source.read_u8()? as usize,
-            source.read_u8()? as usize,
-            source.read_u8()? as u32,
-            FieldExtension::read_from(source)?,
-            source.read_u8()? as usize,
-            source.read_u8()? as usize,
-            BatchingMethod::read_from(source)?,
-            BatchingMethod::read_from(source)?,
+            num_queries,
+            blowup_factor,
+            grinding_factor,
+            field_extension,
+            fri_folding_factor,
+            fri_remainder_max_degree,
+            batching_constraints,
+            batching_deep,
         );
-        Ok(result.with_partitions(source.read_u8()? as usize, source.read_u8()? as usize))
+        Ok(result.with_partitions(num_partitions, hash_rate))
     }
 }
 
